@@ -283,9 +283,9 @@ func (ms *Modules) process() []error {
 	// Collect the list of modules we know about now so when we range
 	// below we don't pick up new modules.  We assume the user tells
 	// us explicitly which modules they are interested in.
-	for _, m := range ms.Modules {
-		mods = append(mods, m)
-	}
+	// They are taken in key order: which of two importers is served first
+	// decides which file a module that is not loaded yet is fetched from.
+	mods = append(mods, inKeyOrder(ms.Modules)...)
 	for _, m := range mods {
 		if err := ms.include(m); err != nil {
 			errs = append(errs, err)
